@@ -91,7 +91,7 @@ func (o *orC03A) onSQL(ev *SQLEvent) {
 		// the switchover re-confirms the lock after catch-up: a process whose lock-owning session
 		// is gone and which had already established a new session (so it knows, and a re-check
 		// would have asked ZooKeeper) before its last catch-up poll does not go on re-pointing
-		if it := ev.It; it != nil && it.state == "Manager" && m.lockOwner != ev.Src {
+		if it := ev.It; it != nil && it.state == "Manager" && m.lockOwner != ev.Src && ev.InSwitch {
 			if ls, ok := o.ownedSess[ev.Src]; ok && o.newSess[ev.Src] != 0 && o.newSess[ev.Src] != ls {
 				// catch-up polls = reads of gtid_executed after this attempt's last freeze statement
 				var p2 time.Duration = -1
